@@ -1131,9 +1131,11 @@ def MPD(phi: np.ndarray) -> float:
     U, s, VT = np.linalg.svd(np.c_[phi.real, phi.imag])
     V = VT.T
     w = np.abs(phi)
-    num = phi.real * V[1, 1] - phi.imag * V[0, 1]
-    den = np.sqrt(V[0, 1] ** 2 + V[1, 1] ** 2) * np.abs(phi)
-    MPD = np.sum(w * np.arccos(np.abs(num / den))) / np.sum(w)
+    # components with zero magnitude have zero weight (their phase is undefined): leave them out
+    nz = w > 0
+    num = phi.real[nz] * V[1, 1] - phi.imag[nz] * V[0, 1]
+    den = np.sqrt(V[0, 1] ** 2 + V[1, 1] ** 2) * w[nz]
+    MPD = np.sum(w[nz] * np.arccos(np.abs(num / den))) / np.sum(w)
     return MPD
 
 
